@@ -71,6 +71,65 @@ theorem default_exact (cap : Bool) (env : Env) (ws : List Str) (st : Stages)
       (Spec.fullMatch false P s = true ↔ (s ∈ ws ∧ s ≠ [])) :=
   Grexv.default_exact cap env ws st h hseg hne s hs
 
+/-- no class option is set -/
+def NoClassOption (cfg : Config) : Prop :=
+  cfg.digit = false ∧ cfg.nonDigit = false ∧ cfg.space = false ∧ cfg.nonSpace = false ∧ cfg.word = false ∧ cfg.nonWord = false
+
+/-- **C02 with the presentation-neutral settings, all inputs** capturing groups, `\u{…}` escaping (no surrogate pairs)
+and one disabled anchor, in any combination, leave the statement as it is: the compiled pattern matches `s` in full iff `s`
+is one of the test cases and `s ≠ ""` -/
+theorem neutral_settings_exact (cfg : Config) (hp : PlainPrintCI cfg) (hci : cfg.ci = false) (hnc : NoClassOption cfg)
+    (env : Env) (ws : List Str) (st : Stages)
+    (h : regExpFrom cfg env ws = .ok st) (hseg : ∀ w ∈ ws, SegOK env w) (hne : ∃ t ∈ ws, t ≠ [])
+    (s : Str) (hs : ∀ c ∈ s, Scalar c) :
+    ∃ P, Spec.parse (fmtRegExp cfg st.finalAst) = some (⟨false, false⟩, P) ∧
+      (Spec.fullMatch false P s = true ↔ (s ∈ ws ∧ s ≠ [])) := by
+  have hst : storedCases cfg env ws = ws := by simp [storedCases, hci]
+  have := classes_exact_ci cfg hp env ws st h (by rw [hst]; exact hseg) (by rw [hst]; exact hne) s hs
+  rw [hst, hci] at this
+  obtain ⟨P, hP, hm⟩ := this
+  refine ⟨P, hP, ?_⟩
+  rw [hm]
+  have hmap : ∀ t : Str, t.map (convAtom cfg) = t.map Atom.chr := by
+    intro t
+    apply List.map_congr_left
+    intro c _
+    have : convChar cfg c = [c] := convChar_noflags cfg hnc c
+    simp [convAtom, this]
+  constructor
+  · rintro ⟨t, ht, htne, hd⟩
+    rw [hmap, atomsDen_chars] at hd
+    subst hd
+    exact ⟨ht, htne⟩
+  · rintro ⟨hsw, hsne⟩
+    exact ⟨s, hsw, hsne, by rw [hmap, atomsDen_chars]⟩
+
+/-- with both anchors disabled as well (whichever expression the self-check keeps): nothing but test cases is matched in
+full, and every non-empty test case is -/
+theorem neutral_settings_bounds (cfg : Config) (hp : PlainPrintNA cfg) (hci : cfg.ci = false) (hnc : NoClassOption cfg)
+    (env : Env) (ws : List Str) (st : Stages)
+    (h : regExpFrom cfg env ws = .ok st) (hseg : ∀ w ∈ ws, SegOK env w) (hne : ∃ t ∈ ws, t ≠ [])
+    (s : Str) (hs : ∀ c ∈ s, Scalar c) :
+    ∃ P, Spec.parse (fmtRegExp cfg st.finalAst) = some (⟨false, false⟩, P) ∧
+      (Spec.fullMatch false P s = true → s ∈ ws) ∧ (s ∈ ws → s ≠ [] → Spec.fullMatch false P s = true) := by
+  have hst : storedCases cfg env ws = ws := by simp [storedCases, hci]
+  have := classes_bounds_any_anchor cfg hp env ws st h (by rw [hst]; exact hseg) (by rw [hst]; exact hne) s hs
+  rw [hst, hci] at this
+  obtain ⟨P, hP, hsub, hsup⟩ := this
+  have hmap : ∀ t : Str, t.map (convAtom cfg) = t.map Atom.chr := by
+    intro t
+    apply List.map_congr_left
+    intro c _
+    have : convChar cfg c = [c] := convChar_noflags cfg hnc c
+    simp [convAtom, this]
+  refine ⟨P, hP, ?_, ?_⟩
+  · intro hm
+    obtain ⟨t, ht, hd⟩ := hsub hm
+    rw [hmap, atomsDen_chars] at hd
+    subst hd; exact ht
+  · intro hsw hsne
+    exact hsup s hsw hsne (by rw [hmap, atomsDen_chars])
+
 /-- the model of `RegExp::from` cannot fail on such input: together with `default_exact` this covers every run -/
 theorem default_succeeds (cap : Bool) (env : Env) (ws : List Str) :
     ∃ st, regExpFrom (cfgPlain cap false) env ws = .ok st := by
